@@ -308,6 +308,12 @@ func (ch *channel) receivedSegData(rsd recSegData) {
 		if rsd.isLmsg {
 			log.Info("Received lsmg indicating last segment")
 		}
+		// All registered tracks must have a segment before a number is listed,
+		// also tracks that had not sent any segment when the timeline generation started.
+		ch.mu.RLock()
+		nrTracks := uint32(len(ch.trDatas))
+		ch.mu.RUnlock()
+		ch.segTimesGen.setNrTracks(nrTracks)
 		newSeqNr, err := ch.segTimesGen.addSegmentData(log, rsd)
 		if err != nil {
 			log.Error("Failed to add segment data", "err", err)
